@@ -39,7 +39,7 @@ ASSUMPTIONS = ['processor failures are Exception subclasses (a plugin raising a 
                'model float printing is CPython\'s for decimals of at most 15 significant digits and |exponent| <= 300; '
                'values beyond (2**53+1, 17-digit text, 1e400) are generated in the `boundary` stream and judged by the '
                'oracle only',
-               'prom stream: values are multiples of 0.25, label values are text, a gauge accumulates (both built-in '
+               'prom stream: finite values are multiples of 0.25 (nan / inf / -inf in the edge sub-stream), label values are text, a gauge accumulates (both built-in '
                'processors add); edge operations (refused by the client library, or sharing a cache key) are compared with '
                'the model only']
 
